@@ -28,6 +28,7 @@ func main() {
 	goarch := flag.String("goarch", "", "GOARCH for the load")
 	noSelf := flag.Bool("no-selfcheck", false, "thorough tier: skip variant self-validation")
 	dumpFields := flag.Bool("dump-fieldtable", false, "print internal/rules/fieldtable.go for the analysed tree and exit")
+	dumpAnchors := flag.Bool("dump-anchortable", false, "print internal/rules/anchortable.go for the analysed tree and exit")
 	noInline := flag.Bool("no-inline", false, "disable virtual inlining of unexported same-package helpers (debugging)")
 	flag.Parse()
 	if e := os.Getenv("VERIF_TIER"); e != "" && !isFlagSet("tier") {
@@ -56,6 +57,15 @@ func main() {
 		}
 	}
 
+	if *dumpAnchors {
+		w, err := core.Load(opts)
+		if err != nil {
+			fmt.Println(err)
+			os.Exit(2)
+		}
+		fmt.Print(rules.AnchorTableSource(w))
+		return
+	}
 	if *dumpFields {
 		w, err := core.Load(opts)
 		if err != nil {
